@@ -438,7 +438,7 @@ func legitBig(b []byte) bool {
 
 // C10: no input can crash or exhaust the process; bad files yield errors.
 func C10(r *chk.Run) {
-	r.Rule("bounded-exhaustive structured mutation of valid seed files in isolated workers (ulimit -v 8 GiB, 64 MiB stack, 30 s per call, per-call allocation accounting): POSITION-EXHAUSTIVE depth 1 - for every byte offset of every seed and every width in {1,2,4,8} the bytes are overwritten with each hostile value of that width {0,1,...,2^15,2^16-1,2^31,2^32-1,2^40,2^63-1,2^63,2^64-9,2^64-1} and with v-1, v+1 (every length/offset/size/count/time/id/opcode field starts at some offset); STRUCTURAL - every record duplicated / removed / swapped with its neighbour, values just below 2^31 on one length field per record kind, compression names of every length 0..40; SIBLING VALUES - every length/size/offset/count field set to each value the same field has in another record of the same kind; TRUNCATED RECORDS - every record (top level and inside chunks) with its body cut by 1..24 bytes and by half, lengths fixed up, and cut by 1..17 bytes with the trailing length-prefixed field reduced alike; NESTED - every top-level record (the chunk itself included) copied to the front/middle/end of every chunk's records with sizes fixed up and recompressed, chunk records replaced by the whole file / by nothing; SPLICED - for every ordered pair of records a chimera body (half of one, half of the other) and the byte stream cut from the middle of one into the middle of the other; thorough: DEPTH 2 - every pair of length/size/offset/count fields x reduced hostile values {0, 2^31, 2^63, max, v-1, v+1}; every mutant goes through 12 decode entry points (lexer under 6 option sets incl. every Parse*, Info+ChannelCounts, 4 iterator modes, random access); outcome must be ok or error - never panic, process death, stall or allocation beyond the ceilings; distinct = entry-point calls")
+	r.Rule("bounded-exhaustive structured mutation of valid seed files in isolated workers (ulimit -v 8 GiB, 64 MiB stack, 30 s per call, per-call allocation accounting): POSITION-EXHAUSTIVE depth 1 - for every byte offset of every seed and every width in {1,2,4,8} the bytes are overwritten with each hostile value of that width {0,1,...,2^15,2^16-1,2^31,2^32-1,2^40,2^63-1,2^63,2^64-9,2^64-1} and with v-1, v+1 (every length/offset/size/count/time/id/opcode field starts at some offset); STRUCTURAL - every record duplicated / removed / swapped with its neighbour, values just below 2^31 on one length field per record kind, compression names of every length 0..40; OVERSIZED PAIRS - every 32-bit length field set to 2^26 together with its record's length set beyond it; SIBLING VALUES - every length/size/offset/count field set to each value the same field has in another record of the same kind; TRUNCATED RECORDS - every record (top level and inside chunks) with its body cut by 1..24 bytes and by half, lengths fixed up, and cut by 1..17 bytes with the trailing length-prefixed field reduced alike; NESTED - every top-level record (the chunk itself included) copied to the front/middle/end of every chunk's records with sizes fixed up and recompressed, chunk records replaced by the whole file / by nothing; SPLICED - for every ordered pair of records a chimera body (half of one, half of the other) and the byte stream cut from the middle of one into the middle of the other; thorough: DEPTH 2 - every pair of length/size/offset/count fields x reduced hostile values {0, 2^31, 2^63, max, v-1, v+1}; every mutant goes through 12 decode entry points (lexer under 6 option sets incl. every Parse*, Info+ChannelCounts, 4 iterator modes, random access); outcome must be ok or error - never panic, process death, stall or allocation beyond the ceilings; distinct = entry-point calls")
 	r.Assume("mutants that legitimately allocate up to the documented 2 GiB ceiling (seconds of page clearing each) are run by the near-2GiB family and, in thorough, by the positional family of the first seed; elsewhere they are counted as deferred; every family gets a fair share of the time budget and reports exhaustive=false when it did not finish")
 	r.Assume("seeds are written without CRCs so that no path is masked by a checksum failure; truncations are C09's; depth-2 mutations are restricted to pairs of the specification's size/offset/count fields and are thorough-only")
 	seeds := c10Seeds(r.Thorough())
@@ -457,6 +457,8 @@ func C10(r *chk.Run) {
 		fams = append(fams, fam{"nested/" + s.name, len(ns), func(i int) ([]byte, string) { return ns[i]() }})
 		sb := sf.siblings()
 		fams = append(fams, fam{"sibling-values/" + s.name, len(sb), func(i int) ([]byte, string) { return sb[i]() }})
+		ov := sf.oversized()
+		fams = append(fams, fam{"oversized-pairs/" + s.name, len(ov), func(i int) ([]byte, string) { return ov[i]() }})
 		ts := sf.truncated()
 		fams = append(fams, fam{"truncated-records/" + s.name, len(ts), func(i int) ([]byte, string) { return ts[i]() }})
 	}
@@ -513,7 +515,7 @@ func C10(r *chk.Run) {
 		// position-exhaustive one, then those whose mutants allocate up to the 2 GiB ceiling
 		rank := func(n string) int {
 			switch {
-			case strings.HasPrefix(n, "truncated-records/"), strings.HasPrefix(n, "nested/"), strings.HasPrefix(n, "sibling-values/"):
+			case strings.HasPrefix(n, "truncated-records/"), strings.HasPrefix(n, "nested/"), strings.HasPrefix(n, "sibling-values/"), strings.HasPrefix(n, "oversized-pairs/"):
 				return 0
 			case strings.HasPrefix(n, "positional/"):
 				return 1
